@@ -3,18 +3,21 @@
 -/
 import TB.Spec.ExportSpec
 import TB.Lemmas.Run
+import TB.Lemmas.RunATable
+import TB.Lemmas.RunARun
 namespace TB
 
 /-- every entry of the metadata table is the export image of one torrent file, at
     <export>/<40-hex info-hash>/Data/<name>[/<path…>] -/
 theorem C12_path (exportDir : Path) (ts : List Torrent) (id0 : Nat) :
-    ∀ e ∈ buildTable exportDir ts id0, ∃ t ∈ ts, IsTargetOf exportDir t e := by
-  sorry
+    ∀ e ∈ buildTable exportDir ts id0, ∃ t ∈ ts, IsTargetOf exportDir t e :=
+  buildTable_target exportDir ts id0
 
 /-- evaluating a piece mutates only export images of its own non-padding segments -/
 theorem C12_only_piece (H : Bytes → Bytes) (st : St) (w : Work) :
     ∀ o ∈ newOps st (solvePiece H st w).1, MutationConfined w o := by
-  sorry
+  intro o ho
+  exact PieceOp.confined ((solvePiece_ext H st w).newOps o ho)
 
 /-- run level: every mutating operation of a run names the export image of a non-padding entry of the table
     (create_dir_all: its parent directory), and every set_len uses that entry's declared length -/
@@ -23,24 +26,39 @@ theorem C12_only_run (H : Bytes → Bytes) (inp : RunIn) :
       ∃ e ∈ (run H inp).table, e.isPad = false ∧
         (if o.kind = .mkdirs then o.path = e.fullTarget.dropLast else o.path = e.fullTarget) ∧
         (∀ n, o.kind = .setlen n → n = e.fileLength) := by
-  sorry
+  intro o ho hk
+  rcases (run_inv H inp).2 o ho with (h | h | ⟨e, he, hp, hkind, hpath⟩) | ⟨w, _, h, hent⟩
+  · rw [h] at hk; simp [OpKind.mutating] at hk
+  · rw [h] at hk; simp [OpKind.mutating] at hk
+  · refine ⟨e, he, hp, ?_, ?_⟩
+    · rcases hkind with h | h <;> rw [h] <;> simpa using hpath
+    · rcases hkind with h | h <;> rw [h] <;> simp
+  · rcases h with h | ⟨buf, _, k, seg, hseg, hp, hs⟩
+    · rcases hk with hk | hk
+      · rw [h.not_mutating] at hk; cases hk
+      · rcases h with h | ⟨n, h⟩ | h <;> rw [h] at hk <;> cases hk
+    · exact ⟨seg.ent, hent seg (List.mem_of_getElem? hseg), hp, hs.confined⟩
 
 /-- the table a run works with is the table of its de-duplicated torrents (searches filled in) -/
 theorem C12_run_table (H : Bytes → Bytes) (inp : RunIn) :
     ∀ e ∈ (run H inp).table, ∃ t ∈ inp.torrents, IsTargetOf inp.exportDir.path t e := by
-  sorry
+  intro e he
+  obtain ⟨e0, he0, hu⟩ := (run_inv H inp).1 e he
+  obtain ⟨t, ht, h⟩ := buildTable_target _ _ _ e0 he0
+  exact ⟨t, mem_sortTorrents (mem_dedupTorrents ht), hu.isTargetOf h⟩
 
 /-- set_len then an in-range positional write leave the file at exactly the declared length -/
 theorem C12_len (fs : Fs) (i n off : Nat) (data : Bytes) (h : off + data.length ≤ n) :
     (((fs.setLen i n).writeAt i off data).content i).length = n := by
-  sorry
+  rw [Fs.content_writeAt_length _ _ _ _ (by rw [Fs.content_setLen_length]; exact h), Fs.content_setLen_length]
 
 /-- distinct torrents never share an export file: their export subtrees differ in the info-hash component -/
 theorem C12_disjoint (exportDir : Path) (t₁ t₂ : Torrent) (e₁ e₂ : TEntry)
     (h₁ : IsTargetOf exportDir t₁ e₁) (h₂ : IsTargetOf exportDir t₂ e₂)
     (hne : t₁.infoHash ≠ t₂.infoHash) : e₁.fullTarget ≠ e₂.fullTarget
       ∧ ¬ Path.isPrefixOf e₁.fullTarget e₂.fullTarget := by
-  sorry
+  have hp := IsTargetOf.disjoint h₁ h₂ hne
+  exact ⟨fun he => hp ⟨[], by simp [he]⟩, hp⟩
 
 /-- within one multi-file torrent, distinct prefix-free paths give distinct images (the hypothesis is needed:
     a loadable torrent may list one path twice — known finding D6) -/
@@ -49,6 +67,14 @@ theorem C12_inj_partial (exportDir : Path) (t : Torrent) (e₁ e₂ : TEntry) (f
     (h₁ : IsTargetOf exportDir t e₁) (h₂ : IsTargetOf exportDir t e₂)
     (hdistinct : ∀ (i j : Nat) (f g : FileRec), fs[i]? = some f → fs[j]? = some g → i ≠ j → f.path ≠ g.path)
     (hidx : e₁.fileIndex ≠ e₂.fileIndex) : e₁.fullTarget ≠ e₂.fullTarget := by
-  sorry
+  obtain ⟨_, ⟨l, hn, _⟩ | ⟨fs₁, f, hf₁, hi₁, _, _, ht₁⟩⟩ := h₁
+  · rw [hfs] at hn; cases hn
+  obtain ⟨_, ⟨l, hn, _⟩ | ⟨fs₂, g, hf₂, hi₂, _, _, ht₂⟩⟩ := h₂
+  · rw [hfs] at hn; cases hn
+  rw [hfs] at hf₁ hf₂
+  cases hf₁; cases hf₂
+  rw [ht₁, ht₂]
+  intro he
+  exact hdistinct _ _ f g hi₁ hi₂ hidx (List.append_cancel_left he)
 
 end TB
